@@ -67,5 +67,13 @@ func IsNil(node interface{}) bool {
 		return true
 	}
 
-	return reflect.ValueOf(node).IsNil()
+	// Only some kinds of values can be nil, asking any other kind (like a
+	// string) would panic.
+	switch value := reflect.ValueOf(node); value.Kind() {
+	case reflect.Chan, reflect.Func, reflect.Interface, reflect.Map,
+		reflect.Ptr, reflect.Slice, reflect.UnsafePointer:
+		return value.IsNil()
+	}
+
+	return false
 }
